@@ -223,7 +223,7 @@ def shard_main(check, tier, shard, nshards, seed, outpath, findings):
         todo = []
         if shard == 0:
             for f in findings:
-                if f.get('witness') is not None:
+                if f.get('witness') is not None and f.get('witness_for', f['properties'][0]) == check.ID:
                     todo.append(('witness:' + f['id'], -1, f['witness'], f))
         wall_cap = check.SHARD_WALL_S[tier] * 0.9
         for cls, n in budget.items():
